@@ -1,8 +1,8 @@
 package main
 
 import (
-	"regexp"
 	"fmt"
+	"regexp"
 	"strings"
 
 	"github.com/go-shiori/dom"
